@@ -5,6 +5,9 @@ import (
 	"math"
 	"math/big"
 	"math/bits"
+	"runtime"
+	"strings"
+	"sync"
 
 	ds "github.com/sealdice/dicescript"
 	"golang.org/x/exp/rand"
@@ -117,6 +120,12 @@ func c05Plan(tier string) []c05Test {
 		}
 		if r%4 == 1 {
 			t = append(t, c05Test{"vmpair", 6, r}, c05Test{"vmpair", 10, r})
+		}
+		if r%4 == 2 {
+			t = append(t, c05Test{"vmseq", 6, r}, c05Test{"vmseq", 20, r}, c05Test{"vmseq", 100, r})
+		}
+		if r%8 == 3 {
+			t = append(t, c05Test{"fallback", 1 << 62, r})
 		}
 		for _, n := range c05Pair {
 			t = append(t, c05Test{"pair1", n, r}, c05Test{"pair2", n, r})
@@ -231,6 +240,55 @@ func c05Stat(t c05Test, draws int, seed uint64) (float64, string) {
 		}
 		_, p := chi2p(obs, exp)
 		return p, ""
+	case "vmseq":
+		// a plain die evaluated after other dice terms of the same program (every modifier, every
+		// family, nested dice, dice in containers and earlier statements) is still a fair die
+		vc := AllDice()
+		vc.Seed = seed | 1
+		vm := vc.NewVM()
+		pr := fw.NewRand(seed ^ 0x5eed)
+		pres := []string{"d6max2", "d1000min600", "d20max3", "3d6kh1", "4d6kl2", "2d10dh1", "3d8dl1", "d4max1", "2d1000min999", "d(d4max1)", "(d2max1)d6", "b2", "p1", "f", "3a8", "2c8", "d6min6", "5d1min1", "d%dmax1", "d%dmin%d"}
+		obs := make([]float64, n)
+		exp := make([]float64, n)
+		rounds := draws / 8
+		for i := 0; i < rounds; i++ {
+			pre := pres[pr.Intn(len(pres))]
+			if strings.Contains(pre, "%d") {
+				pre = strings.ReplaceAll(pre, "%d", fmt.Sprint(n))
+			}
+			var prog string
+			switch pr.Intn(5) {
+			case 0:
+				prog = fmt.Sprintf("%s * 0 + d%d", pre, n)
+			case 1:
+				prog = fmt.Sprintf("[%s, d%d][1]", pre, n)
+			case 2:
+				prog = fmt.Sprintf("%s; d%d", pre, n)
+			case 3:
+				prog = fmt.Sprintf("x = %s; 1d%d", pre, n)
+			default:
+				prog = fmt.Sprintf("%s + 0 * %s + d%d - %s", pre, pre, n, pre)
+				if err := vm.Run(fmt.Sprintf("[%s, %s, d%d][2]", pre, pre, n)); err != nil {
+					return 0, "run failed: " + err.Error()
+				}
+				prog = ""
+			}
+			if prog != "" {
+				if err := vm.Run(prog); err != nil {
+					return 0, "run of " + prog + " failed: " + err.Error()
+				}
+			}
+			v, ok := vm.Ret.ReadInt()
+			if !ok || int64(v) < 1 || int64(v) > n {
+				return 0, fmt.Sprintf("plain d%d after %q returned %s", n, pre, vm.Ret.ToString())
+			}
+			obs[v-1]++
+		}
+		for i := range exp {
+			exp[i] = float64(rounds) / float64(n)
+		}
+		_, p := chi2p(obs, exp)
+		return p, ""
 	case "pair1", "pair2":
 		lag := 1
 		if t.kind == "pair2" {
@@ -285,7 +343,7 @@ func div128(hi, lo, d uint64) uint64 {
 
 func c05Draws(tier, kind string) int {
 	switch kind {
-	case "vmpair":
+	case "vmpair", "vmseq":
 		if tier == "thorough" {
 			return 400000
 		}
@@ -341,6 +399,65 @@ func c05Case(w *fw.W, idx int, r *fw.Rand) {
 		}
 		w.Eval(2003)
 		w.Count("mode_checks", 1)
+		w.Note(fw.Hash64(desc))
+		return
+	case "fallback":
+		// contexts without a seed draw from the package generator: dice rolled by different
+		// goroutines at the same moment (and around garbage collections, which empty caches)
+		// are still successive draws of ONE generator, so on a 2^62-sided die no face may ever
+		// come up twice (chance < 1e-9 for the ~80000 dice of a case).
+		seen := map[int64]int{}
+		const G, K, rounds = 16, 100, 25
+		dup := ""
+		for round := 0; round < rounds && dup == ""; round++ {
+			if round%2 == 0 {
+				runtime.GC()
+				runtime.GC()
+			}
+			res := make([][]int64, G)
+			var wg sync.WaitGroup
+			start := make(chan struct{})
+			for g := 0; g < G; g++ {
+				wg.Add(1)
+				go func(g int) {
+					defer wg.Done()
+					var vm *ds.Context
+					if g%2 == 1 {
+						vm = Cfg{}.NewVM()
+					}
+					<-start
+					for k := 0; k < K; k++ {
+						if vm != nil {
+							if err := vm.Run(fmt.Sprintf("d%d + d%d * 0", t.n, t.n)); err == nil {
+								v, _ := vm.Ret.ReadInt()
+								res[g] = append(res[g], int64(v))
+							}
+						} else {
+							res[g] = append(res[g], int64(ds.Roll(nil, ds.IntType(t.n), 0)))
+						}
+					}
+				}(g)
+			}
+			close(start)
+			wg.Wait()
+			for g := range res {
+				for _, v := range res[g] {
+					if v < 1 || v > t.n {
+						dup = fmt.Sprintf("unseeded d%d returned %d", t.n, v)
+					}
+					if og, ok := seen[v]; ok && dup == "" {
+						dup = fmt.Sprintf("face %d of a 2^62-sided die came up twice (goroutine %d and goroutine %d, round %d): unseeded dice of concurrent contexts are not independent draws", v, og, g, round)
+					}
+					seen[v] = g
+				}
+			}
+		}
+		if dup != "" {
+			w.Violate(idx, "dice-bias", "roll|fallback-repeats", desc, dup, nil)
+		}
+		w.Eval(int64(len(seen)))
+		w.Count("fallback_dice", int64(len(seen)))
+		w.Count("fallback_checks", 1)
 		w.Note(fw.Hash64(desc))
 		return
 	case "consume":
